@@ -405,6 +405,10 @@ func (w *world) mutProof(p *aProof) string {
 			return "proof.dup-preparer"
 		}
 	}
+	if w.r.Intn(3) == 0 && p.PRef.Inst == worldInst {
+		p.PRef.Inst = worldInst + 1 // the preparers' signatures of the sibling instance: genuine, but not for this instance
+		return "proof.pref.sibling-instance"
+	}
 	// both refs together (a consistent proof for another view/hash)
 	nv := w.otherVal(p.PPRef.View, false)
 	p.PPRef.View, p.PRef.View = nv, nv
@@ -1297,6 +1301,38 @@ func (w *world) missingBlockScript() {
 		w.inject(w.byId[to], &aMsg{Kind: "C", Ref: aRef{3, worldInst, 1, 1, 2999501}, Snd: aSig{1, true}, ShareOk: true}, "byz-C")
 	}
 	for k := 0; k < 80 && len(w.pool) > 0; k++ {
+		p := w.pool[0]
+		w.pool = w.pool[1:]
+		w.deliverG(w.byId[p.to], p.msg, p.raw, p.genuine)
+	}
+}
+
+// siblingInstanceProofScript: the correct members 0, 1, 2 PREPARE the leader's block A in view 0 (member 3 is
+// Byzantine). Their PREPARE signatures over the same reference in the sibling instance are genuine too. Member 3 votes
+// for view 1 with a "prepared proof" made of the leader's PREPREPARE reference of this instance and the PREPARE
+// reference and signatures of the sibling instance. The correct leader of view 1 must not count that vote (C08).
+func (w *world) siblingInstanceProofScript() {
+	for _, n := range w.honest {
+		w.sync(n, nil)
+	}
+	w.take(1, "PP", 0)
+	w.take(2, "PP", 0)
+	w.take(0, "P", 1)
+	w.take(0, "P", 2)
+	w.take(1, "P", 2)
+	w.take(2, "P", 1)
+	var a uint64
+	for _, m := range w.history {
+		if m.Kind == "PP" {
+			a = m.Ref.Hash
+		}
+	}
+	for _, id := range []uint64{0, 2} {
+		w.election(w.byId[id], 1, 0)
+	}
+	proof := &aProof{PPRef: aRef{1, worldInst, 1, 0, a}, PPSnd: aSig{0, true}, PRef: aRef{2, worldInst + 1, 1, 0, a}, PSnds: []aSig{{1, true}, {2, true}}}
+	w.inject(w.byId[1], &aMsg{Kind: "VC", Vote: &aVote{5, worldInst, 1, 1, proof, aSig{3, true}}, Block: w.blockOfHash(a)}, "byz-vote-with-sibling-instance-proof")
+	for k := 0; k < 60 && len(w.pool) > 0; k++ {
 		p := w.pool[0]
 		w.pool = w.pool[1:]
 		w.deliverG(w.byId[p.to], p.msg, p.raw, p.genuine)
